@@ -687,14 +687,14 @@ class ModelFeatures:
             func_dict = other.convert_to_funcs(["indirect_effect"])
             for key in lhs.keys():
                 if key in rhs.keys():
-                    lnt[('INDIRECT', rhs[key][0], key.name)] = func_dict[
-                        ('INDIRECT', rhs[key][0], key.name)
+                    lnt[('INDIRECT', rhs[key][0].name, key.name)] = func_dict[
+                        ('INDIRECT', rhs[key][0].name, key.name)
                     ]
                     return lnt
             # No key is matching
             key = next(iter(rhs))
-            lnt[('INDIRECT', rhs[key][0], key.name)] = func_dict[
-                ('INDIRECT', rhs[key][0], key.name)
+            lnt[('INDIRECT', rhs[key][0].name, key.name)] = func_dict[
+                ('INDIRECT', rhs[key][0].name, key.name)
             ]
             return lnt
         return lnt
